@@ -23,7 +23,8 @@ ASSUMPTIONS = [
     "symbolic (date concrete) or, for the fully symbolic tasks, with all digits symbolic (years 1-9999); English selected, "
     "autodetection for a reduced set",
     "an abbreviation listed several times with different offsets (LMT) is excluded: 'the listed offset' is ambiguous",
-    "pickling/copying of the result (quantifier-free) is outside this check",
+    "pickling/copying: the zone object of the result is round-tripped through pickle/copy/deepcopy inside each path (a "
+    "ground fact per table entry, not solver-quantified); the datetime fields themselves are symbolic",
     "date theory (symx.dates) stands for CPython datetime/calendar; symbolic regex stands for re/regex on templates",
     "while finding C11-diacritic-abbreviations is open, abbreviations that change under the library's own accent-stripping "
     "normalisation are not visited symbolically; the finding is re-confirmed natively from its listed example",
@@ -97,8 +98,16 @@ def h_tz(body, tz_text, off, paren=False, languages=("en",)):
         if do.tzinfo is None:
             return C.outcome(False, wit, "naive")
         got = do.tzinfo.utcoffset(None)
+        # the zone object attached to the result must survive pickling and copying (per table entry: a ground fact)
+        import copy
+        import pickle
+        try:
+            rt = [pickle.loads(pickle.dumps(do.tzinfo)), copy.copy(do.tzinfo), copy.deepcopy(do.tzinfo)]
+            survives = all(t.utcoffset(None) == got and t.tzname(None) == do.tzinfo.tzname(None) for t in rt)
+        except Exception:
+            survives = False
         ok = z3.And(C.dt_is(do, v["Y"], v["m"], v["d"], v["H"], v["M"], v["S"], 0), bool(got == _dt.timedelta(seconds=off)),
-                    dd.period == "day")
+                    dd.period == "day", bool(survives))
         return C.outcome(ok, wit, "aware")
     return fn
 
@@ -167,6 +176,15 @@ def native_check(spec):
     got = res["date_obj"]
     bad = (got is None or got.tzinfo is None or got.utcoffset() != _dt.timedelta(seconds=spec["off"])
            or got.replace(tzinfo=None) != exp or res["period"] != "day")
+    if not bad:
+        import copy
+        import pickle
+        try:
+            for g2 in (pickle.loads(pickle.dumps(got)), copy.copy(got), copy.deepcopy(got)):
+                if g2 != got or g2.utcoffset() != got.utcoffset() or g2.replace(tzinfo=None) != exp:
+                    bad = True
+        except Exception:
+            bad = True
     return {"violates": bad, "detail": "%s -> %r; expected %s with UTC offset %+d s" % (desc, got, exp, spec["off"])}
 
 
